@@ -56,6 +56,9 @@ func run(c *Case) (fail string) {
 		}
 	}()
 	fs := []*token.FileSet{nil, token.NewFileSet(), token.NewFileSet()}
+	// shadow sets: the same operations on files that also carry a //line entry (file name, line and column) in the
+	// middle of the file; a load must preserve the adjusted position of every offset (reference = the set in memory)
+	sh := []*token.FileSet{nil, token.NewFileSet(), token.NewFileSet()}
 	for _, op := range c.Ops {
 		switch op.Op {
 		case "add":
@@ -65,11 +68,36 @@ func run(c *Case) (fail string) {
 			}
 			f := fs[op.S].AddFile(name(op.ID), -1, len(b))
 			f.SetLinesForContent(b)
+			g := sh[op.S].AddFile(name(op.ID), -1, len(b))
+			g.SetLinesForContent(b)
+			if len(b) >= 2 {
+				g.AddLineColumnInfo(len(b)/2, "gen.wa", 10+op.ID, 3)
+			}
 		case "query":
 			_ = fs[op.S].Position(token.Pos(op.P))
 		case "load":
 			if err := fs[op.Dst].FromJson(fs[op.Src].ToJson()); err != nil {
 				return "FromJson: " + err.Error()
+			}
+			type at struct {
+				p   token.Pos
+				pos token.Position
+			}
+			var before []at
+			sh[op.Src].Iterate(func(f *token.File) bool {
+				for off := 0; off <= f.Size(); off++ {
+					p := token.Pos(f.Base() + off)
+					before = append(before, at{p, sh[op.Src].Position(p)})
+				}
+				return true
+			})
+			if err := sh[op.Dst].FromJson(sh[op.Src].ToJson()); err != nil {
+				return "FromJson (files with line entries): " + err.Error()
+			}
+			for _, a := range before {
+				if g := sh[op.Dst].Position(a.p); g != a.pos {
+					return fmt.Sprintf("adjusted position of %d is %v in memory and %v after the JSON round trip (file with a //line entry)", a.p, a.pos, g)
+				}
 			}
 		}
 	}
